@@ -84,7 +84,11 @@ class PartHandler(PartFlowController):
         self._next_cycle_time_offset += offset
 
     def notify_upstream_of_available_space(self):
-        self._set_waiting_for_part(True)
+        # Only start waiting for a Part if there is room for one, the
+        # notification can also be sent while a Part is still held
+        # (for example when the input is unblocked).
+        if self._part == None and self._output == None:
+            self._set_waiting_for_part(True)
         super().notify_upstream_of_available_space()
 
     def space_available_downstream(self):
